@@ -1,5 +1,5 @@
 @unit ics20
-@shim core.rs cw_utils.rs cw2.rs std_adapters.rs cw_controllers.rs ibc.rs range.rs
+@shim core.rs cw_utils.rs std_more.rs cw2.rs std_adapters.rs cw_controllers.rs ibc.rs range.rs
 @properties C11 C12 C18 C20
 
 // ===================================================================== data and state
@@ -466,40 +466,56 @@ pub use semver::Version;
 @end
 
 /// C18: migrate never touches the allow list and may set but never unset the default gas limit
+/// the stored contract version is one of the v1-style versions whose Config is rebuilt from scratch by migrate
+pub open spec fn v1_style(s: Raw) -> bool {
+    semver::ver_parse(cw2_version(s)) is Some && semver::ver_parse("0.12.0-alpha1"@) is Some
+    && (semver::ver_lt(semver::ver_parse(cw2_version(s))->Some_0, semver::ver_parse("0.12.0-alpha1"@)->Some_0)
+        || semver::ver_parse(cw2_version(s))->Some_0 == semver::ver_parse("0.12.0-alpha1"@)->Some_0)
+}
 @fn contracts/cw20-ics20/src/contract.rs migrate [closures: 1]
 @ensures C18.migrate_keeps_allow_list
     r is Ok ==> forall|a: Seq<char>| #![trigger allow_key(a)] allow_of(final(deps.storage).view(), a) == allow_of(old(deps.storage).view(), a)
-@ensures C18.migrate_never_unsets_default
+@ensures C18.migrate_sets_default
     r is Ok && msg.default_gas_limit is Some ==> config_of(final(deps.storage).view()) is Some
         && config_of(final(deps.storage).view())->Some_0.default_gas_limit == msg.default_gas_limit
+@ensures C18.migrate_never_unsets_default
+    r is Ok && msg.default_gas_limit is None && !v1_style(old(deps.storage).view()) ==> config_of(final(deps.storage).view()) == config_of(old(deps.storage).view())
 @closure 1 C18.migrate_default_closure
     (res: StdResult<Config>)
     ensures res is Ok ==> res->Ok_0 == (Config { default_gas_limit: msg.default_gas_limit, ..old })
 @prefix
     broadcast use ics_axioms;
+    // snapshots of the storage between the migration steps; each is refreshed at its step (a step that is gone leaves the previous one)
     let ghost s0 = deps.storage.view();
+    let ghost mut s1 = s0;
+    let ghost mut s2 = s0;
+    let ghost mut s3 = s0;
     proof {
         lemma_ns6();
+        reveal_strlit("0.12.0-alpha1");
         assert(unpath(item_key("admin"@)).0 == "admin"@ && unpath(item_key("ics20_config"@)).0 == "ics20_config"@ && unpath(cw2_key()).0 == "contract_info"@);
     }
 @insert_before "if storage_version <= MIGRATE_VERSION_3.parse().map_err(from_semver)?" 1
-    let ghost s1 = deps.storage.view();
     proof {
+        s1 = deps.storage.view(); s2 = s1; s3 = s1;
         assert forall|a: Seq<char>| allow_of(s1, a) == allow_of(s0, a) by { assert(unpath(allow_key(a)).0 == "allow_list"@); }
+        assert(!v1_style(s0) ==> config_of(s1) == config_of(s0));
     }
 @insert_before "if msg.default_gas_limit.is_some()" 1
-    let ghost s2 = deps.storage.view();
     proof {
+        s2 = deps.storage.view(); s3 = s2;
         assert forall|a: Seq<char>| allow_of(s2, a) == allow_of(s1, a) by {
             assert(unpath(allow_key(a)).0 == "allow_list"@);
             assert(s1.contains_key(allow_key(a)) == s2.contains_key(allow_key(a)));
         }
+        assert(config_of(s2) == config_of(s1)) by { assert(s1.contains_key(item_key("ics20_config"@)) == s2.contains_key(item_key("ics20_config"@))); }
     }
 @insert_before "if storage_version < version" 1
-    let ghost s3 = deps.storage.view();
     proof {
+        s3 = deps.storage.view();
         assert forall|a: Seq<char>| allow_of(s3, a) == allow_of(s2, a) by { assert(unpath(allow_key(a)).0 == "allow_list"@); }
         assert(msg.default_gas_limit is Some ==> config_of(s3) is Some && config_of(s3)->Some_0.default_gas_limit == msg.default_gas_limit);
+        assert(msg.default_gas_limit is None ==> config_of(s3) == config_of(s2));
     }
 @insert_before "Ok(Response::new())" 1
     proof {
@@ -649,4 +665,49 @@ pub open spec fn str_cursor(c: Option<String>) -> Option<Seq<u8>> { match c { So
     ensures res.contract@ == __p2_0.0@ && res.gas_limit == __p2_0.1.gas_limit
 @prefix
     broadcast use string_conv;
+@end
+
+// ===================================================================== the query entry point routes every message to its query function
+@enum contracts/cw20-ics20/src/msg.rs QueryMsg
+@struct contracts/cw20-ics20/src/msg.rs ListChannelsResponse
+@struct contracts/cw20-ics20/src/msg.rs ChannelResponse
+@struct contracts/cw20-ics20/src/msg.rs PortResponse
+@struct contracts/cw20-ics20/src/msg.rs ConfigResponse
+@struct contracts/cw20-ics20/src/msg.rs AllowedResponse
+impl JsonT for ListChannelsResponse { uninterp spec fn json(self) -> Seq<u8>; uninterp spec fn unjson(b: Seq<u8>) -> Option<Self>; }
+impl JsonT for ChannelResponse { uninterp spec fn json(self) -> Seq<u8>; uninterp spec fn unjson(b: Seq<u8>) -> Option<Self>; }
+impl JsonT for PortResponse { uninterp spec fn json(self) -> Seq<u8>; uninterp spec fn unjson(b: Seq<u8>) -> Option<Self>; }
+impl JsonT for ConfigResponse { uninterp spec fn json(self) -> Seq<u8>; uninterp spec fn unjson(b: Seq<u8>) -> Option<Self>; }
+impl JsonT for AllowedResponse { uninterp spec fn json(self) -> Seq<u8>; uninterp spec fn unjson(b: Seq<u8>) -> Option<Self>; }
+impl JsonT for ListAllowedResponse { uninterp spec fn json(self) -> Seq<u8>; uninterp spec fn unjson(b: Seq<u8>) -> Option<Self>; }
+impl JsonT for AdminResponse { uninterp spec fn json(self) -> Seq<u8>; uninterp spec fn unjson(b: Seq<u8>) -> Option<Self>; }
+// declarations only (nothing assumed about them): port id comes from the chain, channel listings use raw ranges / unzip
+@fn contracts/cw20-ics20/src/contract.rs query_port [assume]
+@end
+@fn contracts/cw20-ics20/src/contract.rs query_list [assume]
+@end
+@fn contracts/cw20-ics20/src/contract.rs query_channel [assume]
+@end
+@fn contracts/cw20-ics20/src/contract.rs query_config [assume]
+@end
+@fn contracts/cw20-ics20/src/contract.rs query_allowed
+@ensures C18.query_allowed
+    r is Ok ==> match allow_of(deps.storage.view(), contract@) {
+        Some(a) => r->Ok_0.is_allowed && r->Ok_0.gas_limit == a.gas_limit,
+        None => !r->Ok_0.is_allowed && r->Ok_0.gas_limit is None,
+    }
+@prefix
+    broadcast use ics_axioms;
+@end
+@fn contracts/cw20-ics20/src/contract.rs query
+@ensures C18.query_routes C11 C12 C20
+    r is Ok ==> match msg {
+        QueryMsg::Port {} => exists|x: PortResponse| r->Ok_0@ == x.json() && call_ensures(query_port, (deps,), Ok::<PortResponse, StdError>(x)),
+        QueryMsg::ListChannels {} => exists|x: ListChannelsResponse| r->Ok_0@ == x.json() && call_ensures(query_list, (deps,), Ok::<ListChannelsResponse, StdError>(x)),
+        QueryMsg::Channel { id } => exists|x: ChannelResponse| r->Ok_0@ == x.json() && call_ensures(query_channel, (deps, id), Ok::<ChannelResponse, StdError>(x)),
+        QueryMsg::Config {} => exists|x: ConfigResponse| r->Ok_0@ == x.json() && call_ensures(query_config, (deps,), Ok::<ConfigResponse, StdError>(x)),
+        QueryMsg::Allowed { contract } => exists|x: AllowedResponse| r->Ok_0@ == x.json() && call_ensures(query_allowed, (deps, contract), Ok::<AllowedResponse, StdError>(x)),
+        QueryMsg::ListAllowed { start_after, limit } => exists|x: ListAllowedResponse| r->Ok_0@ == x.json() && call_ensures(list_allowed, (deps, start_after, limit), Ok::<ListAllowedResponse, StdError>(x)),
+        QueryMsg::Admin {} => exists|x: AdminResponse| r->Ok_0@ == x.json() && admin_answer(deps.storage.view(), "admin"@, x),
+    }
 @end
